@@ -178,7 +178,7 @@ def finish(prop, tier, seed, level, results, rule, t0, monitors, extra_cov=None,
     for v in extra_violations or []:
         viols.append(v)
     if os.environ.get("VERIF_DEBUG"):
-        top = sorted((r for r in results if "stats" in r), key=lambda r: -r["stats"]["states"])[:15]
+        top = sorted((r for r in results if "stats" in r), key=lambda r: -r["stats"]["wall_s"])[:15]
         for r in top:
             print("  top: %-45s states=%d trans=%d wall=%.1fs" % (r["name"], r["stats"]["states"],
                   r["stats"]["transitions"], r["stats"]["wall_s"]))
